@@ -451,6 +451,48 @@ func TestC04(t *testing.T) {
 		rec.Eval("header-grid", n)
 		rec.NonTrivialEnum(n)
 
+		// "a file that Encode produced passes": also when the File object
+		// already carries header CRC, data size and file CRC values from an
+		// earlier life (decoded, or encoded before and edited since)
+		encCases, encFailed := 0, false
+		hx.RapidCheck(t, rec, "encoded", func(rt *rapid.T, fail func(string, string, any)) {
+			if encCases >= hx.Pick(300, 20000) && !encFailed {
+				return
+			}
+			d := gen.D{T: rt}
+			// (the rapid case count of this binary is small: several Files per case)
+			for k := 0; k < 12; k++ {
+				encCases++
+				o := gen.DefaultFileOpts()
+				o.MaxMsgs = 2
+				o.FieldPct = 12
+				o.LongSlots = false
+				fs := gen.GenFile(d, o)
+				fs.Stale = d.Int(0, 2, "stale2") != 0
+				f, err := gen.BuildFile(fs)
+				if err != nil {
+					continue
+				}
+				var buf bytes.Buffer
+				ord := binary.ByteOrder(binary.LittleEndian)
+				if fs.BigEndian {
+					ord = binary.BigEndian
+				}
+				if err := fit.Encode(&buf, f, ord); err != nil {
+					continue
+				}
+				rec.Eval("encoded", 1)
+				if fs.Stale && fs.HdrCRC {
+					rec.NonTrivial(hx.FPBytes(buf.Bytes()))
+					rec.Class("encoded from a File with stale header CRC / sizes, 14-byte header", 1)
+				}
+				if msg, ok := checkValid(buf.Bytes()); !ok {
+					encFailed = true
+					fail("", "file written by Encode: "+msg, corruptCase{File: hex.EncodeToString(buf.Bytes())})
+				}
+			}
+		})
+
 		hx.RapidCheck(t, rec, "headers", func(rt *rapid.T, fail func(string, string, any)) {
 			d := gen.D{T: rt}
 			// header cases are cheap: 100 per rapid case
